@@ -30,7 +30,7 @@ public:
         range_t r(offset, length);
         SCOPED_LOCK(m_lock);
         auto it = m_index.lower_bound(r);
-        if (it != m_index.end() && it->offset < r.end()) {
+        if (it != m_index.end() && conflict(*it, r)) {
             offset = it->offset;
             length = std::min(it->end(), r.end()) - offset;
             it->cond.wait(m_lock);
@@ -63,7 +63,7 @@ public:
         range_t r(offset, length);
         SCOPED_LOCK(m_lock);
         auto it = m_index.lower_bound(r);
-        if (it != m_index.end() && it->offset < r.end()) {
+        if (it != m_index.end() && conflict(*it, r)) {
             it->cond.wait(m_lock);
             return nullptr;
         } else {
@@ -123,7 +123,10 @@ protected:
         }
         bool operator < (const range_t& rhs) const
         {
-            return end() <= rhs.offset; // because end() is not inclusive
+            // end() is not inclusive; the 2nd clause keeps this a strict weak
+            // ordering for empty ranges (an empty range must not be < itself)
+            return end() <= rhs.offset &&
+                  (offset < rhs.offset || end() < rhs.end());
         }
         bool contains(const range_t& x) const
         {
@@ -140,6 +143,11 @@ protected:
     };
     std::set<Range> m_index;
     typedef std::set<Range>::iterator iterator;
+    // `held` is the lower bound of `r` in m_index (so it is not < r)
+    static bool conflict(const range_t& held, const range_t& r)
+    {
+        return held.offset < r.end() || !(r < held);
+    }
     uint64_t next_offset(iterator it)
     {
         return (++it == m_index.end()) ? (uint64_t)-1 : it->offset;
